@@ -200,7 +200,16 @@ def expr_str(e, st=None, prec=0, top=True):
     elif t == "div":
         s = f"{expr_str(e[1], st, 2, False)}/{expr_str(e[2], st, 3, False)}"
     elif t == "neg":
-        s = f"(-{expr_str(e[1], st, 3, False)})"
+        inner = e[1]
+        if inner[0] in ("var",) or (inner[0] == "num" and inner[1] >= 0 and inner[1].denominator == 1):
+            s = f"(-{expr_str(inner, Style(), 5, False)})"      # a sign may only precede an atom
+        elif inner[0] == "pow" and inner[1][0] == "var":
+            # Python precedence: -y**2 is -(y**2)
+            s = f"-{expr_str(inner, Style(), 4, False)}" if top else f"(-{expr_str(inner, Style(), 4, False)})"
+        else:
+            s = f"(-1)*({expr_str(inner, st, 0, False)})"
+            if prec > 2:
+                s = f"({s})"
     elif t == "pow":
         s = f"{expr_str(e[1], st, 5, False)}**{int(e[2])}"
     else:
